@@ -18,3 +18,8 @@ func specLexWF(p *_parser) bool {
 	}
 	return p.chr >= 0x80 || (p.offset == p.chrOffset+1 && rune(p.str[p.chrOffset]) == p.chr)
 }
+
+// specReWF: the cursor of the regular-expression transformer lies inside the pattern.
+func specReWF(p *_RegExp_parser) bool {
+	return p != nil && p.length == len(p.str) && 0 <= p.chrOffset && p.chrOffset <= p.offset && p.offset <= p.length
+}
